@@ -305,6 +305,8 @@ class Check:
             self.stats["unmodelled"] = self.stats.get("unmodelled", 0) + 1
             return
         kf = m.get("kf")
+        if kf is None and mout.startswith("hazard "):
+            kf = self.hazard_kf(c, mout.split()[1])
         spec = m.get("spec")
         agree_model = outcomes_agree(iout, mout)
         agree_spec = (spec is None) or outcomes_agree(iout, spec)
@@ -326,6 +328,10 @@ class Check:
             return
         if not agree_spec:
             self.record_violation("implementation and model agree but contradict the specification", c, iout, m, stderr)
+
+    def hazard_kf(self, c, hazard):
+        """Name of the known-finding region a model hazard belongs to (None = no region)."""
+        return None
 
     def tally(self, c, iout, m):
         k = iout.split(" ")[0] + ((" " + iout.split(" ")[1]) if iout.startswith(("rerr", "perr", "crash")) and " " in iout else "")
